@@ -896,11 +896,13 @@ func (r *Reader) find(key []byte, filtered bool, ro *opt.ReadOptions, noValue bo
 	// Key doesn't use block buffer, no need to copy the buffer.
 	rkey = data.Key()
 	if !noValue {
-		if r.bpool == nil {
+		if r.bpool == nil && r.cache == nil {
+			// The block was read for this call only; nobody else sees it.
 			value = data.Value()
 		} else {
-			// Value does use block buffer, and since the buffer will be
-			// recycled, it need to be copied.
+			// Value does use block buffer. The buffer will be recycled
+			// (buffer pool) or is shared with other readers (block cache),
+			// so it need to be copied: the caller owns what we return.
 			value = append([]byte(nil), data.Value()...)
 		}
 	}
